@@ -1,6 +1,7 @@
 """C19 -- platform parsers are total and agree with the canonical URLs they generate."""
 import ast
 import re
+import itertools
 
 from ..srcmodel import AnalysisError, Unknown, Regex, FuncRef, unparse, walk_no_nested
 from ..absint import Analyzer, INF
@@ -23,6 +24,7 @@ def run(ctx):
     discriminators(ctx, "R4")
     templates(ctx, "R5")
     youtube_model(ctx, "R6")
+    facebook_model(ctx, "R7")
 
 
 def public_functions(mod):
@@ -204,7 +206,10 @@ def discriminators(ctx, rule):
                 t = unparse(node.test.func)
                 used.setdefault(t, []).append(node)
     kinds = sorted(used)
-    ctx.require_instances(rule, sum(len(v) for v in used.values()), 4, "id/handle decisions in parse_facebook_url")
+    if sum(len(v) for v in used.values()) < 4:
+        # the decisions were factored into helpers: the round trip they protect is decided by the model table (R7)
+        ctx.undecided(rule, "id-versus-handle decisions of parse_facebook_url are not spelled in the function itself (see R7)")
+        return
     ctx.ob(rule, "facebook/one-id-predicate", len(kinds) == 1,
            "parse_facebook_url decides id-vs-handle with different predicates (%s): '/groups/1234567/posts/9' gives a group handle but '/groups/1234567/permalink/9' a group id, so record.url does not re-parse to the same record" % ", ".join(kinds),
            mod.site(fn), witness="https://www.facebook.com/groups/1234567/permalink/99887766", sample="predicates used: %s" % kinds)
@@ -374,3 +379,70 @@ def youtube_model(ctx, rule):
     finally:
         repo.overrides = {}
     ctx.require_instances(rule, n, len(urls), "youtube url cells")
+
+
+
+# ----------------------------------------------------------------------
+# model table: the Facebook parser on route x id/handle classes
+# ----------------------------------------------------------------------
+FB_VOCAB = ["some.handle", "123456", "groups", "posts", "permalink", "videos", "photos", "people", "watch", "a.99", "x.php"]
+FB_QUERIES = [
+    "/profile.php?id=100", "/profile.php", "/permalink.php?story_fbid=55&id=100", "/permalink.php?story_fbid=55", "/story.php?story_fbid=55&id=100", "/story.php?id=100",
+    "/photo.php?fbid=10&set=a.1", "/photo.php?fbid=10&set=g.7", "/photo/?fbid=10&set=gm.3", "/photo.php?set=a.1", "/some.handle/photos/a.1/10/?type=3", "/watch/?v=44", "/watch/?x=1",
+    "/some.handle/videos/44/", "/123456/videos/44", "/groups/123456/posts/77/", "/groups/some.group/permalink/77/", "/people/Some-Name/100", "/people/Some-Name",
+]
+
+
+def _obj_key(x):
+    from ..microeval import Obj
+    if isinstance(x, Obj):
+        return (x.cls.name, tuple(sorted((k, _obj_key(v)) for k, v in x.attrs.items())))
+    return x
+
+
+def facebook_model(ctx, rule):
+    ctx.rule(rule, "model table (Facebook): parse_facebook_url, interpreted on {www, m}.facebook.com x every path of 1-2 (thorough tier: 1-3) segments over the route / id / handle vocabulary (with and without a trailing slash) plus the query-carried routes (profile.php, permalink.php, story.php, photo.php, watch): never raises, and for every record r = parse(u), parse(r.url) == r (same class, same fields)")
+    from ..microeval import run_function, Raised, Obj, _class_member
+    repo = ctx.repo
+    fm = repo.mod("facebook")
+    fparse = fm.func("parse_facebook_url")
+    ctx.fn(fparse.qualname)
+    site = fm.site(fparse.node)
+    maxlen = 3 if ctx.tier == "thorough" else 2
+    urls = []
+    for L in range(1, maxlen + 1):
+        for segs in itertools.product(FB_VOCAB, repeat=L):
+            for tail in ("", "/"):
+                urls.append("https://www.facebook.com/" + "/".join(segs) + tail)
+    for host in ("https://www.facebook.com", "m.facebook.com"):
+        for qd in FB_QUERIES:
+            urls.append(host + qd)
+    urls += ["https://www.facebook.com", "https://www.facebook.com/", "https://lemonde.fr/some.handle/posts/1", "not a url"]
+    n = 0
+    nrec = 0
+    for u in urls:
+        n += 1
+        try:
+            r = run_function(repo, fparse, [u])
+        except Raised as e:
+            ctx.ob(rule, "facebook/total/%s" % u, False, "parse_facebook_url(%r) raises %s" % (u, e.name), site, witness=u)
+            continue
+        except Unknown as e:
+            ctx.undecided(rule, "parse_facebook_url(%r): %s" % (u, e))
+            return
+        if not isinstance(r, Obj):
+            continue
+        nrec += 1
+        try:
+            canon = _class_member(repo, r, "url")
+            r2 = run_function(repo, fparse, [canon])
+        except Raised as e:
+            ctx.ob(rule, "facebook/round-trip/%s" % u, False, "building or re-parsing the canonical url of parse_facebook_url(%r) = %r raises %s" % (u, r, e.name), site, witness=u)
+            continue
+        except Unknown as e:
+            ctx.undecided(rule, "canonical url of %r: %s" % (r, e))
+            return
+        ctx.ob(rule, "facebook/round-trip/%s" % u, _obj_key(r2) == _obj_key(r),
+               "parse_facebook_url(%r) is %r, its canonical url %r re-parses to %r" % (u, r, canon, r2), site, witness=u, trivial=True)
+    ctx.ob(rule, "facebook/cells", True, "", site, sample="%d urls, %d records round-tripped" % (n, nrec))
+    ctx.require_instances(rule, nrec, 50, "facebook records")
